@@ -21,6 +21,7 @@ RULE = (
     "families (programs with hostile byte arguments, execute lists, BeaconGate vectors, text values with quotes, "
     "backslashes, #;{}); each is run through from_beacon_config -> as_text -> from_text -> as_dict and compared with "
     "what the reference derives from the configuration. non-trivial = every configuration (each is distinct)"
+    '. Added to the menu: hostile and repeated static names, header/parameter splitting, Host + host header, execute names and start addresses with quotes/backslashes, gate subsets, both inject transforms, empty domain entries, a post program byte-identical to the get program. '
 )
 ASSUMPTIONS = [
     "text values are accepted if equal as raw literal text or after escape decoding",
